@@ -829,6 +829,17 @@ class SyncMgr(object):
     def __repr__(self):
         return self._pl
 
+    # spies: nothing in a with statement asks a manager for its truth value or length, so any such call
+    # comes from the observer; it is logged (the twin-run comparison of C06 then sees it) and every third
+    # manager is falsy, which is legal and must not change what is reported about it
+    def __bool__(self):
+        self.R.log.append(("bool", self.serial))
+        return self.serial % 3 != 0
+
+    def __len__(self):
+        self.R.log.append(("len", self.serial))
+        return 0
+
     def __enter__(self):
         R = self.R
         R.log.append(("enter", self.serial))
@@ -871,6 +882,17 @@ class AsyncMgr(object):
 
     def __repr__(self):
         return self._pl
+
+    # spies: nothing in a with statement asks a manager for its truth value or length, so any such call
+    # comes from the observer; it is logged (the twin-run comparison of C06 then sees it) and every third
+    # manager is falsy, which is legal and must not change what is reported about it
+    def __bool__(self):
+        self.R.log.append(("bool", self.serial))
+        return self.serial % 3 != 0
+
+    def __len__(self):
+        self.R.log.append(("len", self.serial))
+        return 0
 
     async def __aenter__(self):
         R = self.R
